@@ -327,7 +327,9 @@ def run(ctx):
                 'rules q*K or q/K with numeric or symbolic coefficient and a rescaled K unit; every spelling pair of every '
                 'dimension pair converted before and after the rules are registered, through convert AND get_conversion_factor '
                 'independently (a failed attempt must not be remembered); in 40% of the cases one callable registered for a second '
-                'pair of dimensions P = X*W -> Q = Y*W; non-trivial = every case (>= 40 conversions)')
+                'pair of dimensions P = X*W -> Q = Y*W; negative coefficients; convert_variable of computed and of state variables across '
+                'a rule in both roles, and AGAINST the direction of the only rule (must fail); non-trivial = every case (>= 40 '
+                'conversions)')
     ctx.trusted += ['pint contexts modelled at specification level (shortest chain of dimension-to-dimension transformations, '
                     'each applied to the quantity in its current units)']
     cases = load_corpus() + [gen_case(ctx.seed * 100000 + i) for i in range(n)]
